@@ -8,6 +8,7 @@ chunk size `cap ≥ 1`; `accepted` is the concatenation of the prefixes `write` 
 accepted, `delivered` the concatenation of the frames the consumer received.
 -/
 import HttpServeModel.Lemmas.Pipe
+import HttpServeModel.Lemmas.WriteAll
 
 namespace HS
 
@@ -79,6 +80,18 @@ theorem C08_write_vectored_accepts_a_prefix (s : Sys) (slices : List Bytes) (n :
       exact ih hn
     · simp only [firstNonEmpty, ha, if_false, List.flatten_cons] at hn ⊢
       rw [List.take_append_of_le_length hn]
+
+/-- `write_all` (std's loop over `write`, which `BodyWriter` inherits) on a live identity body
+never fails and never reports `WriteZero`: it accepts the whole buffer, through a sequence of
+non-empty `write` calls — so everything above about histories of writes covers it. -/
+theorem C08_write_all_accepts_everything (cap : Nat) (hc : 0 < cap) (ops : List AnyOp)
+    (hops : ∀ op ∈ ops, op.rawPlain) (bs : Bytes) :
+    let h := (Hist.init cap .raw).run ops
+    h.sys.bw = .raw →
+      (h.sys.writeAll bs).2.1 = .wrote bs.length ∧
+      ∃ ws : List Bytes, (∀ w ∈ ws, w ≠ []) ∧
+        (h.sys.writeAll bs).1 = ((Hist.init cap .raw).run (ops ++ ws.map fun w => .p (.write w))).sys :=
+  write_all_accepts_everything cap hc ops hops bs
 
 /-- Non-vacuity: chunk size 4, write 5 bytes (4 accepted), poll, write the fifth, flush, drop,
 drain. -/
